@@ -942,3 +942,175 @@ Section WriterFacts.
       + right. replace (cut _ (S a) b) with [AAppend FWal (frame (ser e))] by (unfold cut; destruct a; reflexivity).
         cbn [exec fold_left]. eapply DInvG_DInv. exact Hfull.
   Qed.
+
+  (* ---- whole operations (record-writing operations and the rolled-back batch) *)
+  Lemma DInvG_mono : forall d M C C' t, C <= C' -> DInvG d M C t -> DInvG d M C' t.
+  Proof.
+    intros d M C C' t Hle [R [ew [S0 [cs [Hl [Hs [Hc [Hsort [Hb Hcs]]]]]]]]].
+    exists R, ew, S0, cs. repeat split; try assumption; try (exact (proj1 Hs)); try (exact (proj2 Hs)).
+    - destruct Hl as [? [? [? [? ?]]]]; assumption.
+    - destruct Hl as [? [? [? [? ?]]]]; assumption.
+    - destruct Hl as [? [? [? [? ?]]]]; assumption.
+    - destruct Hl as [? [? [? [? ?]]]]; assumption.
+    - destruct Hl as [? [? [? [? ?]]]]; assumption.
+    - eapply Forall_impl; [|exact Hb]. cbn. intros; lia.
+    - lia.
+  Qed.
+  Lemma DInv_mono : forall d M C C', C <= C' -> DInv d M C -> DInv d M C'.
+  Proof. intros d M C C' Hle [t H]. exists t. eapply DInvG_mono; eassumption. Qed.
+  Lemma DInvG_steq : forall d M M' C t, M ≈ M' -> DInvG d M C t -> DInvG d M' C t.
+  Proof.
+    intros d M M' C t HM [R [ew [S0 [cs [Hl [Hs [Hc H]]]]]]].
+    exists R, ew, S0, cs. repeat split; try tauto.
+    - destruct Hl as [? [? [? [? ?]]]]; assumption.
+    - destruct Hl as [? [? [? [? ?]]]]; assumption.
+    - destruct Hl as [? [? [? [? ?]]]]; assumption.
+    - destruct Hl as [? [? [? [? ?]]]]; assumption.
+    - destruct Hl as [? [? [? [? ?]]]]; assumption.
+    - exact (proj1 Hs).
+    - exact (proj2 Hs).
+    - destruct Hc as [X [L0 [E1 [E2 [HE [HS [H1 [H2 HMM]]]]]]]]. exists X, L0, E1, E2. repeat split; try assumption.
+      eapply steq_trans; [apply steq_sym; exact HM | exact HMM].
+  Qed.
+
+  Lemma write_full : forall d w M C e y rot, DInvG d M C [] -> d_wal d = Some y -> genuine e -> C < e_txid e ->
+    let d' := exec d (fst (write_actions ser d w e rot)) in
+    DInvG d' (apply_changes M (eff e)) (e_txid e) [] /\ exists y', d_wal d' = Some y'.
+  Proof.
+    intros d w M C e y rot HI Hy Hg Hlt. unfold write_actions.
+    pose proof (step_append_full d M C e y HI Hy Hg Hlt) as Hfull.
+    set (d1 := exec1 d (AAppend FWal (frame (ser e)))) in *.
+    assert (Hy1 : exists y1, d_wal d1 = Some y1) by (subst d1; cbn [exec1 read write d_wal]; eexists; reflexivity).
+    destruct Hy1 as [y1 Hy1].
+    assert (Hns : next_seq d1 = next_seq d) by (subst d1; unfold next_seq; cbn [exec1 read write d_rot]; reflexivity).
+    destruct (rot && ((WAL_MAX_SIZE <=? w_size w + len (frame (ser e))) || (WAL_MAX_ENTRIES <=? w_count w + 1))); cbn [fst exec fold_left]; fold d1.
+    - rewrite <- Hns. destruct (step_rotate_rename d1 _ _ y1 Hfull Hy1) as [H2 Hn2].
+      destruct (step_create_wal _ _ _ H2 Hn2) as [H3 Hw3]. split; [exact H3 | eauto].
+    - split; [exact Hfull | eauto].
+  Qed.
+
+  Definition simple_op (o : op) : Prop :=
+    match o with
+    | OUpsert _ _ v => val_ok v = true
+    | ODelete _ _ | OBatchFail => True
+    | OBatch _ _ | OCheckpoint _ => False
+    end.
+  (* writer state and disk agree: M is the committed state *)
+  Definition WInv (d : disk) (w : wstate) (M : state) : Prop :=
+    DInvG d M (w_ctr w) [] /\ (exists y, d_wal d = Some y) /\ w_mem w ≈ M.
+
+  Notation op_actions := (op_actions deser mac ser enc_changes ser_hdr enc_map).
+  Notation run_ops := (run_ops deser mac ser enc_changes ser_hdr enc_map).
+  Notation crash_disk := (crash_disk deser mac ser enc_changes ser_hdr enc_map).
+  Notation mk_entry := (mk_entry mac).
+
+  Lemma mk_entry_verify : forall c ts t k v, verify (mk_entry c ts t k v) = true.
+  Proof. intros. unfold Wal.verify, Wal.mk_entry, fields_of. cbn. apply bytes_eqb_refl. Qed.
+
+  Lemma apply_change_steq : forall a b c, a ≈ b -> apply_change a c ≈ apply_change b c.
+  Proof. intros a b c H k. rewrite !get_apply_change. destruct (bytes_eqb (fst c) k); [reflexivity | apply H]. Qed.
+
+  Lemma op_step_simple : forall d w M o, WInv d w M -> simple_op o ->
+    (forall a b, let dc := exec d (cut (fst (op_actions d w o)) a b) in
+       DInv dc M (w_ctr (snd (op_actions d w o))) \/ DInv dc (apply_op M o) (w_ctr (snd (op_actions d w o)))) /\
+    WInv (exec d (fst (op_actions d w o))) (snd (op_actions d w o)) (apply_op M o) /\
+    w_ctr w <= w_ctr (snd (op_actions d w o)).
+  Proof.
+    intros d w M o [HI [[y Hy] Hm]] Hs. destruct o as [ts k v | ts k | ts cs | | ts]; cbn in Hs; try contradiction.
+    - (* upsert *)
+      set (e := mk_entry (w_ctr w + 1) ts TUpsert k (Some v)).
+      assert (Hg : genuine e).
+      { split; [apply mk_entry_verify|]. exists [(k, Some v)]. unfold Wal.entry_changes, e. cbn. rewrite Hs. reflexivity. }
+      assert (Heff : eff e = [(k, Some v)]) by (unfold eff, Wal.entry_changes, e; cbn; rewrite Hs; reflexivity).
+      assert (Hlt : w_ctr w < e_txid e) by (cbn; lia).
+      unfold Wal.op_actions. fold e.
+      pose proof (write_cuts d w M (w_ctr w) e y true) as Hcuts.
+      pose proof (write_full d w M (w_ctr w) e y true HI Hy Hg Hlt) as [Hf [y' Hy']].
+      destruct (write_actions ser d w e true) as [acts w'] eqn:Ew. cbn [fst snd w_ctr] in *.
+      unfold apply_op. cbn [op_changes]. rewrite Heff in *. repeat split.
+      + intros a b. destruct (Hcuts a b HI Hy Hg Hlt) as [H | H]; [left | right].
+        * eapply DInv_mono; [|exact H]. lia.
+        * exact H.
+      + exact Hf.
+      + eauto.
+      + cbn [w_mem]. cbn [apply_changes fold_left]. intro k'. rewrite get_set, get_apply_change. cbn [fst snd].
+        destruct (bytes_eqb k k'); [reflexivity | apply Hm].
+      + lia.
+    - (* delete *)
+      set (e := mk_entry (w_ctr w + 1) ts TDelete k None).
+      assert (Hg : genuine e).
+      { split; [apply mk_entry_verify|]. exists [(k, None)]. reflexivity. }
+      assert (Heff : eff e = [(k, None)]) by reflexivity.
+      assert (Hlt : w_ctr w < e_txid e) by (cbn; lia).
+      unfold Wal.op_actions. fold e.
+      pose proof (write_cuts d w M (w_ctr w) e y true) as Hcuts.
+      pose proof (write_full d w M (w_ctr w) e y true HI Hy Hg Hlt) as [Hf [y' Hy']].
+      destruct (write_actions ser d w e true) as [acts w'] eqn:Ew. cbn [fst snd w_ctr] in *.
+      unfold apply_op. cbn [op_changes]. rewrite Heff in *. repeat split.
+      + intros a b. destruct (Hcuts a b HI Hy Hg Hlt) as [H | H]; [left | right].
+        * eapply DInv_mono; [|exact H]. lia.
+        * exact H.
+      + exact Hf.
+      + eauto.
+      + cbn [w_mem]. cbn [apply_changes fold_left]. intro k'. rewrite get_del, get_apply_change. cbn [fst snd].
+        destruct (bytes_eqb k k'); [reflexivity | apply Hm].
+      + lia.
+    - (* rolled-back batch: only the counter moves *)
+      cbn [Wal.op_actions fst snd w_ctr w_mem]. unfold apply_op. cbn [op_changes apply_changes fold_left]. repeat split.
+      + intros a b. left. replace (cut [] a b) with (@nil action) by (unfold cut; destruct a; reflexivity).
+        cbn. eapply DInvG_DInv. eapply DInvG_mono; [|exact HI]. lia.
+      + cbn. eapply DInvG_mono; [|exact HI]. lia.
+      + cbn. eauto.
+      + exact Hm.
+      + lia.
+  Qed.
+
+  Lemma run_ops_simple : forall ops d w M, WInv d w M -> Forall simple_op ops ->
+    WInv (fst (run_ops d w ops)) (snd (run_ops d w ops)) (apply_ops M ops).
+  Proof.
+    induction ops as [|o tl IH]; intros d w M HW Hs; [exact HW|]. inv Hs.
+    cbn [Wal.run_ops]. destruct (op_step_simple d w M o HW H1) as [_ [HW' _]].
+    destruct (op_actions d w o) as [acts w']. cbn [fst snd] in HW'.
+    cbn [apply_ops fold_left]. apply IH; assumption.
+  Qed.
+
+  Lemma firstn_S_nth : forall {A} (l : list A) i x, nth_error l i = Some x -> firstn (S i) l = firstn i l ++ [x].
+  Proof.
+    induction l as [|y tl IH]; intros i x H; [destruct i; discriminate|].
+    destruct i; cbn in *; [inv H; reflexivity|]. rewrite (IH i x H). reflexivity.
+  Qed.
+  Lemma apply_ops_app : forall a b st, apply_ops st (a ++ b) = apply_ops (apply_ops st a) b.
+  Proof. intros. unfold apply_ops. apply fold_left_app. Qed.
+
+  (* every crash point of every history of record-writing operations *)
+  Lemma crash_prefix_simple : forall ops d w M i a b, WInv d w M -> Forall simple_op ops ->
+    exists j, (i <= j <= S i)%nat /\ r_state (recover (crash_disk d w ops i a b)) ≈ apply_ops M (firstn j ops).
+  Proof.
+    intros ops d w M i a b HW Hs. unfold Wal.crash_disk.
+    assert (Hs1 : Forall simple_op (firstn i ops)).
+    { apply Forall_forall. intros o Ho. rewrite Forall_forall in Hs. apply Hs. rewrite <- (firstn_skipn i ops). apply in_or_app. left. exact Ho. }
+    pose proof (run_ops_simple (firstn i ops) d w M HW Hs1) as HW1.
+    destruct (run_ops d w (firstn i ops)) as [d1 w1]. cbn [fst snd] in HW1.
+    destruct (nth_error ops i) as [o|] eqn:En.
+    - assert (Ho : simple_op o) by (rewrite Forall_forall in Hs; apply Hs; eapply nth_error_In; exact En).
+      destruct (op_step_simple d1 w1 _ o HW1 Ho) as [Hcut _].
+      destruct (Hcut a b) as [H | H]; apply recover_DInv in H as [H _].
+      + exists i. split; [lia | exact H].
+      + exists (S i). split; [lia|]. rewrite (firstn_S_nth ops i o En), apply_ops_app. exact H.
+    - exists i. split; [lia|]. destruct HW1 as [HI _]. apply DInvG_DInv in HI. apply recover_DInv in HI as [H _]. exact H.
+  Qed.
+
+  (* the empty directory, once state.wal has been created *)
+  Lemma WInv_init : WInv (exec disk0 [ACreate FWal]) (mkW [] 0 0 0) [].
+  Proof.
+    split; [|split; [cbn; eauto | apply steq_refl]].
+    exists [], [], [], 0. unfold LogShape, SnapShape, Cover, all_entries. cbn.
+    split; [|split; [|split; [|split; [|split]]]].
+    - split; [reflexivity|]. split; [constructor|]. split; [left; reflexivity|]. split; [left; reflexivity | constructor].
+    - split; [constructor | split; reflexivity].
+    - exists [], [], [], []. cbn. repeat split; try constructor; apply steq_refl.
+    - constructor.
+    - constructor.
+    - lia.
+  Qed.
+End WriterFacts.
